@@ -484,6 +484,18 @@ def views (s : PSet V) (q : List String) (g : List V) : Views V :=
 def probe [LT V] [DecidableLT V] (s : PSet V) (xs : List V) : List (List Bool) :=
   s.params.map (fun p => xs.map p.accepts)
 
+/-- `generate_random_floating_param_initials(rss)`: `vb[:, 0] + u * (vb[:, 1] - vb[:, 0])` with
+`vb = floating_param_bounds` and `u = rss.random.uniform(size=n_floating)` (here: given). A bound that is
+`None` would be `nan` in the bounds array: `none`. -/
+def randomInitials [Add V] [Sub V] [Mul V] (s : PSet V) (u : List V) : Except Err (List (Option V)) :=
+  match maskSel s.params s.floatMask with
+  | .error e => .error e
+  | .ok fps =>
+    if fps.length ≠ u.length then .error .valueError else      -- numpy cannot broadcast the two columns
+    .ok (List.zipWith (fun (p : Param V) x => match p.valmin, p.valmax with
+      | some lo, some hi => some (lo + x * (hi - lo))
+      | _, _ => none) fps u)
+
 end PSet
 
 /-! ### Specification: every view from the bare parameter list -/
